@@ -14,6 +14,7 @@ package coop
 
 import (
 	"fmt"
+	"os"
 	"sort"
 	"sync"
 
@@ -62,12 +63,28 @@ type Sched struct {
 	trace    uint64
 	dead     bool
 	MaxSteps int
+	// PCT-style scheduling (half of the runs): workers have random priorities,
+	// the highest-priority enabled worker always runs, and at a few random
+	// steps the running worker drops below everybody else. Reaches "A stalls
+	// right here while B and C complete whole operations" orderings that
+	// independent coin flips at every yield point almost never produce.
+	pct     bool
+	pctDeep int   // number of priority change points
+	pctSpan int   // steps over which the change points are spread
+	prio    []int // per worker
+	change  map[int]bool
+	low     int
 }
 
 // New creates a scheduler; the pre-emption rate is a per-run knob.
 func New(c *sim.Ctx) *Sched {
 	s := &Sched{C: c, Sites: map[int]int{}, MaxSteps: 4000}
 	s.preempt = []int{30, 150, 400, 800}[c.Weighted(2, 3, 3, 1)]
+	if c.Chance(300) && os.Getenv("VERIF_NOPCT") == "" {
+		s.pct = true
+		s.pctDeep = c.Draw(4)
+		s.pctSpan = 30 << uint(c.Draw(4))
+	}
 	return s
 }
 
@@ -193,6 +210,21 @@ func (s *Sched) Run() {
 	c := s.C
 	n := len(s.workers)
 	progressAt := 0 // last step at which a non-blocked worker ran
+	if s.pct {
+		// a random permutation as priorities, change points spread over the span
+		s.prio = make([]int, n)
+		for i := range s.prio {
+			s.prio[i] = i + 1
+		}
+		for i := n - 1; i > 0; i-- {
+			j := c.Draw(i + 1)
+			s.prio[i], s.prio[j] = s.prio[j], s.prio[i]
+		}
+		s.change = map[int]bool{}
+		for i := 0; i < s.pctDeep; i++ {
+			s.change[1+c.Draw(s.pctSpan)] = true
+		}
+	}
 	for s.step = 1; ; s.step++ {
 		var en []*W
 		unfinished := 0
@@ -225,7 +257,27 @@ func (s *Sched) Run() {
 			return en[i].ID < en[j].ID
 		})
 		pick := en[0]
-		if len(en) > 1 && (en[0] != s.cur || c.Chance(s.preempt)) {
+		if s.pct {
+			best := func() *W {
+				b := en[0]
+				for _, w := range en {
+					if s.prio[w.ID] > s.prio[b.ID] {
+						b = w
+					}
+				}
+				return b
+			}
+			pick = best()
+			if s.change[s.step] {
+				s.low--
+				s.prio[pick.ID] = s.low
+				pick = best()
+			}
+			if en[0] == s.cur && pick != s.cur {
+				s.Switches++
+				c.NonTrivial()
+			}
+		} else if len(en) > 1 && (en[0] != s.cur || c.Chance(s.preempt)) {
 			if en[0] == s.cur {
 				pick = en[1+c.Draw(len(en)-1)]
 				s.Switches++
